@@ -89,6 +89,8 @@ pub enum MutOp {
     },
     /// flip a bit of the bytes as they go on the wire (after encryption)
     WireFlip { off: usize, bit: u8 },
+    /// pad the frame's content with zero bytes until it declares (and has) `total` bytes
+    PadTo { total: usize },
 }
 
 #[derive(Clone, Debug, Serialize, Deserialize, PartialEq)]
@@ -457,6 +459,16 @@ impl<'a> Engine<'a> {
                             let end = (off + del).min(bytes.len());
                             bytes.splice(off..end, b.iter().copied());
                         }
+                    }
+                    MutOp::PadTo { total } => {
+                        let mut r = Rd::new(&bytes);
+                        let _ = r.varint();
+                        let mut body = bytes[r.p..].to_vec();
+                        if body.len() < *total {
+                            body.resize(*total, 0);
+                        }
+                        bytes = codec::varint(body.len() as i32);
+                        bytes.extend_from_slice(&body);
                     }
                     MutOp::Append { bytes: b } => bytes.extend_from_slice(b),
                     MutOp::WireFlip { off, bit } => flips.push((*off, *bit)),
